@@ -15,7 +15,7 @@ from ..world import CLUSTER_LPS, CONTEXT_FREE, LINEAR, TREE_LPS, Session, is_con
 
 ID = "C04"
 LEVEL = "exploration"
-QUICK_RUNS = 480
+QUICK_RUNS = 1600
 CHUNK = 10
 RULE = ("Each run: drawn policy combination (default-constructed and shared policy tuples included), seed, call history; "
         "an interference script places the construction / training / querying of other bandits between A's steps; the "
